@@ -13,7 +13,10 @@ package raft
 // as witness); it does not replace the exhaustive exploration, it extends its
 // reach behind the deviation bound in one deterministic direction.
 
-import "fmt"
+import (
+	"fmt"
+	"sort"
+)
 
 // electOnly fires an election timeout at n and delivers only vote traffic.
 func (s *simState) electOnly(n *simNode) error { return s.electVotes(n, true) }
@@ -77,6 +80,21 @@ func (s *simState) isolate(n *simNode) {
 				_ = s.apply(simEvent{K: "PB", N: a, A: b}, true)
 			}
 		}
+	}
+}
+
+func (s *simState) healAll() {
+	var pairs [][2]int
+	for p, b := range s.w.blocked {
+		if b {
+			pairs = append(pairs, p)
+		}
+	}
+	sort.Slice(pairs, func(i, j int) bool {
+		return pairs[i][0] < pairs[j][0] || (pairs[i][0] == pairs[j][0] && pairs[i][1] < pairs[j][1])
+	})
+	for _, p := range pairs {
+		_ = s.apply(simEvent{K: "PH", N: p[0], A: p[1]}, true)
 	}
 }
 
@@ -206,8 +224,19 @@ func runAdversary(sc *simScenario, hist []simEvent) []simViolation {
 				}
 			}
 		}
+		if tg.kind == "leader-without-committed" && z.up && z.r.state == Leader && len(w.led.viol) > base {
+			// the hostile schedule worked: let the cluster run on under the new leader (partitions healed, one
+			// more client update) so that the consequences for state machines and clients are observed as well
+			s.healAll()
+			_ = s.runFree(2000, nil)
+			if z.up && z.r.state == Leader {
+				if err := s.apply(simEvent{K: "CL", N: z.idx, S: "update"}, true); err == nil {
+					_ = s.runFree(2000, nil)
+				}
+			}
+		}
 		for _, v := range w.led.viol[base:] {
-			if v.Oracle == "leader" || v.Oracle == "commit" || v.Oracle == "vote" {
+			if v.Oracle == "leader" || v.Oracle == "commit" || v.Oracle == "vote" || v.Oracle == "apply" || v.Oracle == "client" || v.Oracle == "match" {
 				v.Desc = fmt.Sprintf("%s [found by the adversarial continuation %s(n%d) after the explored history %v]", v.Desc, tg.kind, tg.node+1, histStrings(hist))
 				v.Full = append([]simEvent(nil), s.histAll()...)
 				out = append(out, v)
